@@ -220,6 +220,7 @@ def run(prog, chk):
                         chk.bad("C01.f", f, "descent-direction:" + side, f.where(s.node),
                                 "the descent moves to `%s->%s` under %s; keys greater than a node belong to its right subtree, smaller ones to its left "
                                 "(in-order iteration and find() stop agreeing)" % (node, side, [x for x in facts if "key" in x[0]]))
+    C.wrappers(prog, chk, "C01.w", TREE)
     subtree_start(prog, chk)
     double_rotation_table(prog, chk)
     C.parent_pairing(prog, chk, "C01.h", TREE)
